@@ -134,18 +134,19 @@ type mtx struct {
 }
 
 type inst struct {
-	re       *hop   // nested Start to issue from the handler (pending)
-	reInst   int    // instance number of the nested transaction once the model has scheduled it (0 = none)
-	reWant   string // expected result class of the nested Start
-	reGot    string
-	reDone   bool
-	reMsg    *stun.Message
-	id       int
-	started  bool // Start/Do returned nil
-	isDo     bool
-	doDone   chan error
-	expected int // handler invocations the model has predicted so far
-	msg      *stun.Message
+	re        *hop   // nested Start to issue from the handler (pending)
+	reInst    int    // instance number of the nested transaction once the model has scheduled it (0 = none)
+	reWant    string // expected result class of the nested Start
+	reGot     string
+	reDone    bool
+	reApplied bool
+	reMsg     *stun.Message
+	id        int
+	started   bool // Start/Do returned nil
+	isDo      bool
+	doDone    chan error
+	expected  int // handler invocations the model has predicted so far
+	msg       *stun.Message
 }
 
 // engine runs a history against the real client and the model in lock step.
@@ -177,6 +178,7 @@ type engine struct {
 		outOfOrder        bool
 		maxInFlight       int
 		closeInFlight     bool
+		lazy              int // due transactions the client did not act on at a tick (allowed by the bounds, counted)
 	}
 }
 
@@ -261,22 +263,15 @@ func startClass(err error) string {
 // performs it at time now, after the completed transaction has left the table.
 func (e *engine) modelNested(instNo int, ex *expect, now time.Duration) {
 	in := e.insts[instNo]
-	if in.re == nil || in.reInst > 0 {
+	if in.re == nil || in.reApplied {
 		return
 	}
+	e.prepareNested(instNo)
+	in.reApplied = true
 	re := in.re
-	size := re.Size
-	if size < 20 {
-		size = 20
-	}
-	m := request(re.ID, size)
-	snapshot := append([]byte(nil), m.Raw...)
-	nin := &inst{id: re.ID, msg: m, reMsg: m}
-	e.mu.Lock()
-	no := len(e.insts)
-	e.insts = append(e.insts, nin)
-	in.reInst = no
-	e.mu.Unlock()
+	no := in.reInst
+	nin := e.insts[no]
+	snapshot := append([]byte(nil), nin.reMsg.Raw...)
 	in.reWant = "nil"
 	_, exists := e.tx[re.ID]
 	switch {
@@ -294,6 +289,26 @@ func (e *engine) modelNested(instNo int, ex *expect, now time.Duration) {
 			nin.started = true
 		}
 	}
+}
+
+// prepareNested creates the nested transaction instance (message, handler slot) so that the real
+// handler can issue the Start; the model's table is updated by modelNested when the completing
+// event is delivered.
+func (e *engine) prepareNested(instNo int) {
+	in := e.insts[instNo]
+	if in.re == nil || in.reInst > 0 {
+		return
+	}
+	size := in.re.Size
+	if size < 20 {
+		size = 20
+	}
+	m := request(in.re.ID, size)
+	nin := &inst{id: in.re.ID, msg: m, reMsg: m}
+	e.mu.Lock()
+	e.insts = append(e.insts, nin)
+	in.reInst = len(e.insts) - 1
+	e.mu.Unlock()
 }
 
 // expectation of one step
@@ -341,19 +356,9 @@ func (e *engine) compare(step string, ex *expect) error {
 			return fmt.Errorf("%s: handler of transaction %d (id index %d) received an event for id %x", step, h.Inst, e.insts[h.Inst].id, h.TID)
 		}
 	}
-	e.mu.Lock()
-	for i, in := range e.insts {
-		if in.reInst > 0 && in.reWant != "" {
-			got, want := in.reGot, in.reWant
-			in.reWant = ""
-			if got != want {
-				e.mu.Unlock()
-
-				return fmt.Errorf("%s: Start issued from inside the handler of transaction %d returned %q, specification says %s (the completed transaction has left the table before its handler runs)", step, i, got, want)
-			}
-		}
+	if err := e.checkNested(step); err != nil {
+		return err
 	}
-	e.mu.Unlock()
 	wr := e.takeWrites()
 	gotW := map[string]int{}
 	for _, r := range wr {
@@ -625,39 +630,22 @@ func (e *engine) step(i int, h hop) error {
 		if target < now {
 			target = now
 		}
+		// The timing clauses of C11 are lower bounds ("repeated only once the clock has passed ...",
+		// "timeout only after ...", "at most n+1 times"), so this step is checked by observation: the
+		// client MAY act on a transaction whose deadline has passed and MUST NOT act on any other.
+		due := map[int]*mtx{}
 		for id, t := range e.tx {
 			if t.deadline == target {
 				e.st.collectAtDeadline = true
 			}
-			if !(t.deadline < target) {
-				continue
+			if t.deadline < target {
+				due[id] = t
 			}
-			if t.k >= e.n {
-				ex.events = append(ex.events, hev{Inst: t.inst, Kind: "timeout"})
-				e.insts[t.inst].expected++
-				e.st.nonFirstResponse = true
-				delete(e.tx, id)
-				e.modelNested(t.inst, ex, target)
-
-				continue
-			}
-			t.k++
-			t.deadline = target + time.Duration(t.k+1)*t.rto
-			ex.writes[string(t.raw)]++
-			e.st.retransmissions++
-			if len(t.raw) > 1500 {
-				e.st.bigRetransmit = true
-			}
-			if e.failArm[id] > 0 {
-				e.failArm[id]--
-				ex.events = append(ex.events, hev{Inst: t.inst, Kind: "writeerr"})
-				e.insts[t.inst].expected++
-				e.st.nonFirstResponse = true
-				delete(e.tx, id)
-				e.modelNested(t.inst, ex, target)
-			}
+			e.prepareNested(t.inst)
 		}
 		e.w.Tick(target)
+
+		return e.observeTick(name, target, due)
 	case "close":
 		wantErr := "nil"
 		if e.closed {
@@ -700,6 +688,148 @@ func (e *engine) step(i int, h hop) error {
 	}
 
 	return e.compare(name, ex)
+}
+
+// idOfDatagram recovers the transaction index from a datagram written by the client.
+func idOfDatagram(b []byte) int {
+	if len(b) < 20 {
+		return -1
+	}
+	i := int(b[18])<<8 | int(b[19])
+	var tid [12]byte
+	copy(tid[:], b[8:20])
+	if txID(i) != tid {
+		return -1
+	}
+
+	return i
+}
+
+// observeTick validates what the client did during one collector tick against the bounds of the
+// specification and brings the model up to date with it.
+func (e *engine) observeTick(step string, target time.Duration, due map[int]*mtx) error {
+	events, writes := e.takeEvents(), e.takeWrites()
+	ex := newExpect()
+	type item struct {
+		stamp int64
+		ev    *hev
+		wr    *sim.WriteRec
+	}
+	var log []item
+	for i := range events {
+		log = append(log, item{stamp: events[i].Stamp, ev: &events[i]})
+	}
+	for i := range writes {
+		log = append(log, item{stamp: writes[i].Seq, wr: &writes[i]})
+	}
+	sort.Slice(log, func(i, j int) bool { return log[i].stamp < log[j].stamp })
+	retransmitted := map[*mtx]bool{}
+	failed := map[*mtx]bool{}
+	acted := map[*mtx]bool{}
+	for _, it := range log {
+		switch {
+		case it.wr != nil:
+			w := it.wr
+			if ex.writes[string(w.Bytes)] > 0 { // first transmission of a Start issued from a handler
+				ex.writes[string(w.Bytes)]--
+
+				continue
+			}
+			id := idOfDatagram(w.Bytes)
+			t := e.tx[id]
+			switch {
+			case t == nil:
+				return fmt.Errorf("%s: datagram %s written for a transaction that is not in flight (after its terminating event, or never started)", step, descB(w.Bytes))
+			case !bytes.Equal(w.Bytes, t.raw):
+				return fmt.Errorf("%s: retransmission %s differs from the message as it was at Start %s", step, descB(w.Bytes), descB(t.raw))
+			case due[id] != t:
+				return fmt.Errorf("%s: transaction %d (id index %d) retransmitted at %v although transmission %d may be repeated only after %v", step, t.inst, id, target, t.k, t.deadline)
+			case retransmitted[t]:
+				return fmt.Errorf("%s: transaction %d retransmitted twice in one tick", step, t.inst)
+			case t.k >= e.n:
+				return fmt.Errorf("%s: transaction %d written %d times, limit is %d retransmissions", step, t.inst, t.k+2, e.n)
+			}
+			retransmitted[t], acted[t] = true, true
+			t.k++
+			t.deadline = target + time.Duration(t.k+1)*t.rto
+			e.st.retransmissions++
+			if len(t.raw) > 1500 {
+				e.st.bigRetransmit = true
+			}
+			if w.Err != nil {
+				failed[t] = true
+				if e.failArm[id] > 0 {
+					e.failArm[id]--
+				}
+			}
+		default:
+			ev := it.ev
+			if ev.Inst < 0 {
+				return fmt.Errorf("%s: fallback handler invoked with %s during a collector tick", step, ev.Kind)
+			}
+			in := e.insts[ev.Inst]
+			t := e.tx[in.id]
+			if t == nil || t.inst != ev.Inst {
+				return fmt.Errorf("%s: handler of transaction %d invoked with %s although it is not in flight", step, ev.Inst, ev.Kind)
+			}
+			switch ev.Kind {
+			case "timeout":
+				switch {
+				case due[in.id] != t || retransmitted[t]:
+					return fmt.Errorf("%s: transaction %d timed out at %v, before the deadline %v of its transmission %d", step, ev.Inst, target, t.deadline, t.k)
+				case t.k < e.n:
+					return fmt.Errorf("%s: transaction %d timed out after %d of %d retransmissions", step, ev.Inst, t.k, e.n)
+				}
+			case "writeerr":
+				if !failed[t] {
+					return fmt.Errorf("%s: handler of transaction %d received a write error although no write failed", step, ev.Inst)
+				}
+				delete(failed, t)
+			default:
+				return fmt.Errorf("%s: handler of transaction %d invoked with %s during a collector tick", step, ev.Inst, ev.Kind)
+			}
+			if ev.TID != txID(in.id) {
+				return fmt.Errorf("%s: handler of transaction %d received an event for id %x", step, ev.Inst, ev.TID)
+			}
+			acted[t] = true
+			in.expected++
+			e.st.nonFirstResponse = true
+			delete(e.tx, in.id)
+			e.modelNested(ev.Inst, ex, target)
+		}
+	}
+	for t := range failed {
+		return fmt.Errorf("%s: the retransmission of transaction %d failed but its handler was not told", step, t.inst)
+	}
+	for k, n := range ex.writes {
+		if n > 0 {
+			return fmt.Errorf("%s: the Start issued from a handler did not write %s", step, descB([]byte(k)))
+		}
+	}
+	for _, t := range due {
+		if !acted[t] {
+			e.st.lazy++ // allowed by the stated bounds; counted in the evidence
+		}
+	}
+
+	return e.checkNested(step)
+}
+
+// checkNested compares the results of Starts issued from inside handlers with the model.
+func (e *engine) checkNested(step string) error {
+	e.mu.Lock()
+	defer e.mu.Unlock()
+	for i, in := range e.insts {
+		if in.reInst > 0 && in.reWant != "" {
+			got, want := in.reGot, in.reWant
+			in.reWant = ""
+			if got != want {
+				return fmt.Errorf("%s: Start issued from inside the handler of transaction %d returned %q, specification says %s (the completed transaction has left the table before its handler runs)", step, i, got, want)
+			}
+		}
+	}
+
+	return nil
 }
 
 // closeClient calls Close, unblocking the reader when the connection is not
